@@ -16,7 +16,7 @@ def replay(ctx, mode, stride):
     ctx.evaluations += rep
     ctx.nontrivial += rep
     if unrep > rep:
-        raise vlib.ToolError("most schedules could not be replayed")
+        ctx.deferred.append("most schedules could not be replayed")
 
 
 def cli_runs(ctx):
